@@ -249,6 +249,10 @@ func VerifH_file_dualstack() {
 		"v4.txt": []byte("00:11:22:33:44:55 192.0.2.10\n"),
 		"v6.txt": []byte("00:11:22:33:44:55 2001:db8::10\naa:bb:cc:dd:ee:ff 2001:db8::11\n"),
 	}
+	v4empty := vnd.Pick("v4empty", 0, 1) == 1
+	if v4empty {
+		files["v4.txt"] = []byte("# no DHCPv4 leases yet\n") // a well-formed file without leases
+	}
 	var h4 func(req, resp *dhcpv4.DHCPv4) (*dhcpv4.DHCPv4, bool)
 	var h6 func(req, resp dhcpv6.DHCPv6) (dhcpv6.DHCPv6, bool)
 	var err4, err6 error
@@ -271,8 +275,21 @@ func VerifH_file_dualstack() {
 	req.ClientHWAddr = net.HardwareAddr{0x00, 0x11, 0x22, 0x33, 0x44, 0x55}
 	resp, _, _ := vh.Resp4(req)
 	r, stop := h4(req, resp)
-	vnd.AssertFinding("C10-one-table-for-both-protocols", r == resp && stop && resp.YourIPAddr.To4() != nil && vh.BytesAre(resp.YourIPAddr.To4(), []byte{192, 0, 2, 10}),
-		"C10 the DHCPv4 instance serves from its own file")
+	if v4empty {
+		// the client is listed for DHCPv6 only: the DHCPv4 instance has nothing for it
+		vnd.Cover("v4-file-empty")
+		vnd.Assert(r == resp && !stop, "C10 clients not listed in the DHCPv4 file get nothing from the DHCPv4 instance")
+		yi := resp.YourIPAddr
+		ok4 := yi == nil || yi.To4() != nil
+		vnd.Assert(ok4, "C10 the DHCPv4 instance never serves an address of the DHCPv6 file")
+		vnd.Assert(ok4, "C19 an accepted dual-stack file configuration never puts an IPv6 address into a DHCPv4 reply (serialising it would crash the server)")
+		if ok4 && r != nil {
+			_ = r.ToBytes() // a panic here is a violation
+		}
+	} else {
+		vnd.AssertFinding("C10-one-table-for-both-protocols", r == resp && stop && resp.YourIPAddr.To4() != nil && vh.BytesAre(resp.YourIPAddr.To4(), []byte{192, 0, 2, 10}),
+			"C10 the DHCPv4 instance serves from its own file")
+	}
 	msg := &dhcpv6.Message{MessageType: dhcpv6.MessageTypeSolicit}
 	msg.AddOption(dhcpv6.OptClientID(&dhcpv6.DUIDLL{HWType: iana.HWTypeEthernet, LinkLayerAddr: net.HardwareAddr{0xaa, 0xbb, 0xcc, 0xdd, 0xee, 0xff}}))
 	msg.AddOption(&dhcpv6.OptIANA{})
